@@ -6,6 +6,7 @@ import (
 	"bytes"
 	"encoding/json"
 	"fmt"
+	"io"
 	"io/ioutil"
 	"mime/multipart"
 	"net"
@@ -93,6 +94,9 @@ func TestMain(m *testing.M) {
 	cfg.ListenAddr = []ma.Multiaddr{la}
 	host, dport, _ := net.SplitHostPort(strings.TrimPrefix(daemon.srv.URL, "http://"))
 	cfg.NodeAddr, _ = ma.NewMultiaddr(fmt.Sprintf("/ip4/%s/tcp/%s", host, dport))
+	// a short header deadline and (the default) no deadline for the body: an
+	// upload may take longer than the headers are allowed to
+	cfg.ReadHeaderTimeout = 400 * time.Millisecond
 	proxy, err := ipfsproxy.New(cfg)
 	if err != nil {
 		panic(err)
@@ -607,7 +611,7 @@ func cidMust(s string) cid.Cid {
 	return c
 }
 
-const ruleRelay = "requests that are not hijacked: other methods (OPTIONS, HEAD, DELETE, PATCH) on hijacked paths, other API paths, near misses (/api/v0/pin/verify, /api/v1/pin/add, /api/v0/pin/add/x/y, /api/v0/addx, /api/v0/repo/stat/x), arbitrary paths, raw queries with encodings and repeated keys, bodies; the daemon answers a generated status and body; oracle: the daemon received the same method, path, raw query and body bytes and the client got the daemon's status and body, and no cluster call happened; non-trivial = body and query both present; distinct by request"
+const ruleRelay = "requests that are not hijacked: other methods (OPTIONS, HEAD, DELETE, PATCH) on hijacked paths, other API paths, near misses (/api/v0/pin/verify, /api/v1/pin/add, /api/v0/pin/add/x/y, /api/v0/addx, /api/v0/repo/stat/x), arbitrary paths, raw queries with encodings and repeated keys, bodies (one in twelve uploaded with a pause longer than the proxy's header deadline); the daemon answers a generated status and body; oracle: the daemon received the same method, path, raw query and body bytes and the client got the daemon's status and body, and no cluster call happened; non-trivial = body and query both present; distinct by request"
 
 func TestRelayed(t *testing.T) {
 	leg := ev.L("relayed", ruleRelay)
@@ -641,7 +645,23 @@ func TestRelayed(t *testing.T) {
 		if rawQuery != "" {
 			u += "?" + rawQuery
 		}
-		req, err := http.NewRequest(method, u, bytes.NewReader(body))
+		var rd io.Reader = bytes.NewReader(body)
+		slow := len(body) >= 2 && rapid.IntRange(0, 11).Draw(t, "slowbody") == 0
+		if slow {
+			// the upload pauses for longer than the header deadline
+			pr, pw := io.Pipe()
+			go func() {
+				pw.Write(body[:len(body)/2])
+				time.Sleep(900 * time.Millisecond)
+				pw.Write(body[len(body)/2:])
+				pw.Close()
+			}()
+			rd = pr
+		}
+		req, err := http.NewRequest(method, u, rd)
+		if slow && err == nil {
+			req.ContentLength = int64(len(body))
+		}
 		if err != nil {
 			t.Fatal(err)
 		}
@@ -678,6 +698,9 @@ func TestRelayed(t *testing.T) {
 			t.Fatalf("daemon response header lost")
 		}
 		cl := []string{"method:" + method}
+		if slow {
+			cl = append(cl, "slow-body")
+		}
 		leg.Case(fmt.Sprintf("%s %s?%s body=%x -> %d", method, p, rawQuery, body, status), len(body) > 0 && rawQuery != "", cl...)
 	})
 }
